@@ -80,3 +80,8 @@ CHECKS['C06'] = ('exploration',
   'For every language of the CLS family (inherited / overridden / extended defenses with every TTC form, all 49 multiplicity form pairs, same-named associations over different type pairs) and the OPS languages: asset classes and defense properties with defaults, every defense value inside and outside [0,1] by constructor and assignment, association classes via signature lookup with their two fields, and per association class every construction attempt over every asset type (declared, subtype, supertype, sibling, unrelated), sizes up to max+1, repeated assets and duplicate links; an attempt must be accepted exactly when the language allows it and a rejected attempt must leave the model unchanged.',
   'Trusted: python_jsonschema_objects validation (checked end to end through what maltoolbox builds from it). Minimum multiplicities are not demanded.',
   'DESIGN.md 3/C06')
+CHECKS['C16'] = ('exploration',
+  'complete run of a finite configuration grid (cells x entry paths x repetitions x process layouts x hash seeds) in subprocesses, hash equality within each cell',
+  'Every (language, model) cell (SEM, INH, OPS, GOPS, CLS languages and coreLang with the shipped example model) is generated through the direct API and through create_attack_graph from a .mar and from a .mal file, twice per process, with all cells in one process in both orders and with one fresh process per cell, under several PYTHONHASHSEED values; all serialised graphs of a cell must be identical, the model serialisation and the language specification must be unchanged by generation + attach + analysis, and two graphs built from one model must share no node.',
+  'Trusted: the OS process boundary and sha256. The grid is finite and run completely; other hash seeds / languages are outside it.',
+  'DESIGN.md 3/C16')
